@@ -135,6 +135,9 @@ func init() {
 }
 
 func runC05(r *simrt.Run, tier Tier) Outcome {
+	if r.Choose(4, "c05.temporal") == 3 {
+		return runC05Temporal(r, tier)
+	}
 	o := DrawOpts(r)
 	o.NoCollect = false
 	prog := GenProgram(r, o)
